@@ -11,6 +11,8 @@ Parts     tag_strings   every string of <= L tokens over the 19-token syntax alp
                         (quick L=4: 137 561, thorough L=5: 2 613 660) through P and the 7 H seams;
           templates     every string of <= L tokens over the 28-token template alphabet
                         (syntax alphabet + {% %} {{ }} {# #} newline, a lone `%` and the opener `{%a `) through W;
+          nested_tags   every block tag registered in the engine (stock Django's, django-components', the harness's) in
+                        8 argument forms as a nested expression inside a string value (3 positions), through P and H;
           truncations   every proper prefix (character granularity) of every valid whole template
                         (documented-syntax tag x 2 heads) through W: end of input in every scanner state.
           mutations     every single-token delete / duplicate / neighbour-swap of every tag of
@@ -164,8 +166,11 @@ def env():
 
 
 def _parser():
+    from django.template.base import UNKNOWN_SOURCE, Origin
+
     e = env()
-    return e["Parser"]([], e["engine"].template_libraries, e["engine"].template_builtins)
+    # like Template(src): a parser always knows the origin of the template it compiles
+    return e["Parser"]([], e["engine"].template_libraries, e["engine"].template_builtins, Origin(UNKNOWN_SOURCE))
 
 
 def _count_nodes(struct):
@@ -245,6 +250,21 @@ def _stock_raises_same(src: str, exc) -> bool:
     except Exception as e2:  # noqa
         return type(e2) is type(exc) and not _site(e2)[1]
     return False
+
+
+def _stock_crash_class(src: str):
+    """class name of the non-TemplateSyntaxError exception stock Django raises when compiling src stand-alone, else None"""
+    from django.template.base import UNKNOWN_SOURCE, DebugLexer, Origin
+    from django.template.exceptions import TemplateSyntaxError
+
+    e = env()
+    try:
+        e["Parser"](DebugLexer(src).tokenize(), e["engine"].template_libraries, e["engine"].template_builtins, Origin(UNKNOWN_SOURCE)).parse()
+    except TemplateSyntaxError:
+        return None
+    except Exception as e2:  # noqa
+        return type(e2).__name__
+    return None
 
 
 def guarded(kind: str, arg: str, seconds: float = HANG_SECONDS):
@@ -465,6 +485,17 @@ def valid_tags(thorough: bool):
     return tags
 
 
+NESTED_FORMS = ["{% N %}", "{% N a %}", "{% N 'x.html' %}", "{% N a as b %}", "{% N a b %}", "{% N %}{% endN %}", "{% N a %}x{% endN %}", "{% N a in b %}x{% endN %}"]
+NESTED_POS = ['"@"', '" @ "', '["@"]']
+
+
+def nested_cases():
+    """(tag name, form, value position) for every block tag registered in the engine's builtins (stock Django's,
+    django-components' and the harness's) - taken from the real parser, not hand-picked"""
+    names = sorted(_parser().tags)
+    return [(n, f, p) for n in names for f in NESTED_FORMS for p in NESTED_POS]
+
+
 def mutants(tokens):
     n = len(tokens)
     for i in range(n):
@@ -598,6 +629,24 @@ def _worker_mut(w, W, payload):
         if rec.hangs >= MAX_HANGS:
             agg.caps.append(f"worker {w} stopped after {rec.hangs} hangs")
             break
+    # nested tags: every block tag the engine knows, in every form, as a nested expression inside a string value
+    for i, (name, form, pos) in enumerate(nested_cases()):
+        if i % W != w or rec.hangs >= MAX_HANGS:
+            continue
+        val = pos.replace("@", form.replace("N", name))
+        agg.extra["nest:states"] += 1
+        for kind, arg, seam_name in (("P", "c12tag a=" + val, "parse_tag"), ("T", head_source(MUT_HEADS[0], "a=" + val), "Template:" + MUT_HEADS[0][0])):
+            res = guarded(kind, arg)
+            if res[0] == "crash" and _stock_crash_class(form.replace("N", name)) == res[1][1].split(":")[0]:
+                # the nested template crashes a *stock* compile function in the same way when it stands alone in an
+                # unpatched Parser (e.g. `{% filter %}`: ValueError in django.template.defaulttags.do_filter)
+                res = ("stock", res[1][0], False)
+            agg.extra["nest:transitions"] += 1
+            agg.extra["nest:" + kind + ":" + _cls(res)] += 1
+            if res[0] == "ok":
+                agg.extra["nest:nontrivial"] += 1
+            agg.observe(("nest", name, res[0]))
+            rec.outcome("nested_tags", seam_name, kind, arg, (len(val), val), res)
     # truncations: every proper prefix of every valid whole template (end of input in every scanner state)
     for i, text in enumerate(_VALID):
         if i % W != w or rec.hangs >= MAX_HANGS:
@@ -989,6 +1038,14 @@ def run(ctx):
                 expected=Counter({k[4:]: v for k, v in agg.extra.items() if k.startswith("mut:P:") or k.startswith("mut:H:")}),
                 bound={"valid_tags": len(_VALID), "mutations": ["delete", "duplicate", "swap neighbours"]},
                 samples=[{"valid": _VALID[len(_VALID) // 2]}])
+    ncases = nested_cases()
+    if agg.extra["nest:states"] != len(ncases) and not agg.caps:
+        raise par.HarnessError("nested-tag enumeration incomplete")
+    ev.add_part("nested_tags", states=agg.extra["nest:states"], transitions=agg.extra["nest:transitions"], validated=agg.extra["nest:transitions"],
+                nontrivial=agg.extra["nest:nontrivial"],
+                expected=Counter({k[5:]: v for k, v in agg.extra.items() if k.startswith("nest:P:") or k.startswith("nest:T:")}),
+                bound={"tags": sorted({c[0] for c in ncases}), "forms": NESTED_FORMS, "positions": NESTED_POS},
+                samples=[{"input": "{% component 'c' a=\"{% include 'x.html' %}\" %}{% endcomponent %}", "expect": "returns"}])
     if agg.extra["trunc:states"] != len(_VALID) * len(MUT_HEADS) and not agg.caps:
         raise par.HarnessError("truncation enumeration incomplete")
     ev.add_part("truncations", states=agg.extra["trunc:states"], transitions=agg.extra["trunc:transitions"], validated=agg.extra["trunc:transitions"],
